@@ -35,7 +35,8 @@ func init() {
 // hostServer: RPC server with the svc handlers (+ reverse client option); prints "ADDR <addr>".
 func hostServer(args []string) int {
 	s := svc.New()
-	opts := []jsonrpc.ServerOption{jsonrpc.WithReverseClient[svc.RevAPI]("R"), jsonrpc.WithServerPingInterval(200 * time.Millisecond)}
+	opts := []jsonrpc.ServerOption{jsonrpc.WithReverseClient[svc.RevAPI]("R"), jsonrpc.WithServerPingInterval(200 * time.Millisecond),
+		jsonrpc.WithParamDecoder(new(svc.Handle), svc.HandleDecoder)}
 	if len(args) > 0 && args[0] == "tracer" {
 		var traced int64
 		opts = append(opts, jsonrpc.WithTracer(func(method string, params []reflect.Value, results []reflect.Value, err error) {
